@@ -88,9 +88,12 @@ pub fn gen_c01(rng: &mut Rng, caseid: u64, unix: bool, bound_ms: u64) -> (ConvCa
     let n = rng.range(2, 8);
     let mut p = Pipe::new();
     let mut kinds = Vec::new();
+    // a fifth of the pipelines end with a malformed request, which the connection answers by
+    // itself (400, then close): that response has to wait for its turn like any other
+    let bad_tail = rng.chance(1, 5);
     for i in 0..n {
         let mut a = simple_req(caseid, i, (1, 1));
-        if i + 1 == n {
+        if i + 1 == n && !bad_tail {
             a.add("Connection", " close");
         }
         let finish = gen_finish_c01(rng);
@@ -111,6 +114,15 @@ pub fn gen_c01(rng: &mut Rng, caseid: u64, unix: bool, bound_ms: u64) -> (ConvCa
             f => format!("{:?}", f).chars().take(8).collect(),
         });
         p.push_valid(&a, &[], Vec::new(), LenExp::Any, plan, "pipelined");
+    }
+    if bad_tail {
+        let bytes: &[u8] = match rng.below(3) {
+            0 => b"BROKEN-REQUEST-LINE\r\n\r\n",
+            1 => b"GET /v/bad HTTP/1.1\r\nHost: h\r\nNoColonInThisLine\r\n\r\n",
+            _ => b"GET /v/bad HTTP/7.7x\r\nHost: h\r\n\r\n",
+        };
+        p.push_rejected(bytes.to_vec(), "malformed-tail", 400);
+        kinds.push("bad-tail".to_string());
     }
     let mut sched = gen_sched(rng, n, true);
     // rarely: one early request is answered only after more than five seconds while the later
@@ -174,6 +186,9 @@ pub fn gen_c06(rng: &mut Rng, caseid: u64, unix: bool, bound_ms: u64) -> (ConvCa
                 (len, gen::encode_chunked(&d, &ch), d)
             }
         };
+        if rng.chance(1, 5) {
+            a.add("TE", rng.pick_s(&[" chunked", " trailers, chunked;q=0.5", " identity", " chunked;q=0.1, identity;q=0.9", " gzip, chunked"]));
+        }
         // chunked bodies are read to the end: an unread chunked body is C09's subject
         let read = if bkind == 4 {
             ReadPlan::ToEof { extra: 0 }
@@ -322,8 +337,16 @@ fn run_one(ctx: &Ctx, env: &Env, c06: bool, case_seed: u64, mode: &str) {
         // exactly one status line per request, none added for the request whose body broke.
         let n_status = obs.raw.windows(9).filter(|w| *w == b"HTTP/1.1 ").count();
         let want = case.exp_responses.len();
+        // A body of undeclared length that has to go out with identity framing (the request's TE
+        // header prefers identity) is read to its end *before* the head is written: when the
+        // application's reader fails there, nothing at all can have been sent for that request,
+        // and the statement does not ask the library to make up a response for a failing
+        // application reader. One status line fewer is accepted in that case only.
+        let undeclared = matches!(case.plans.last().map(|p| &p.finish), Some(Finish::RespondBrokenBody { declared: false, .. }));
         if obs.timed_out.is_some() && !obs.healthy {
             Verdict::Inconclusive("timeout, not healthy".into())
+        } else if undeclared && n_status + 1 == want && obs.timed_out.is_none() {
+            Verdict::Held
         } else if n_status != want {
             Verdict::Violated(vec![Finding {
                 aspect: if n_status > want {
